@@ -71,8 +71,10 @@ def setup_worker(tier):
 def gen_case(rng, i, tier):
     if i % 10 == 9:
         return dict(corpus=rng.randrange(10 ** 6), k=4 if tier != "thorough" else 16, sseed=rng.randrange(1 << 30))
-    p = G.gen(rng, stratified=True, allow_cycles=(i % 3 != 0))
-    return dict(prog=p, k=4 if tier != "thorough" else 16, sseed=rng.randrange(1 << 30), disj=(i % 2 == 1))
+    # the documented agreement only holds on acyclic programs (recorded finding KF-C04-unbuffered): most cases are acyclic, with
+    # disjunctive bodies and several queries so that goals are answered from the table
+    p = G.gen(rng, stratified=True, allow_cycles=(i % 5 >= 3))
+    return dict(prog=p, k=4 if tier != "thorough" else 16, sseed=rng.randrange(1 << 30), disj=(i % 2 == 1 or i % 5 == 0))
 
 
 def run_cli(text, flags):
